@@ -189,6 +189,13 @@ def run(ctx):
     for ci in range(ctx.n(7)):
         p_crash = 0.25 if ci % 3 == 2 else 0.0
         case = DualCase(rng, "c08:%d:%d:%d" % (ctx.seed, ctx.shard, ci), p_crash)
+        if p_crash:
+            # every class of the family gets its turn across cases and shards
+            from ..gen.world import DISTINCT_CRASH_CLASSES
+
+            forced = DISTINCT_CRASH_CLASSES[(ctx.shard + ci // 3) % len(DISTINCT_CRASH_CLASSES)]
+            case.sync.crash_class = case.asyn.crash_class = forced
+            ctx.count("crash_class:" + forced.__name__)
         try:
             case.schema_sync.validate()
             case.schema_async.validate()
@@ -198,7 +205,7 @@ def run(ctx):
         for ri in range(4):
             g = opgen.OpGen(rng, case.ir, max_depth=rng.choice([2, 3]))
             # mutations take the serial path, which has its own continuation logic
-            kinds = ["mutation"] if case.ir.mutation and rng.random() < 0.4 else None
+            kinds = ["mutation"] if case.ir.mutation and rng.random() < (0.7 if p_crash else 0.4) else None
             doc = g.document(n_ops=1, kinds=kinds)
             text = opgen.document_text(doc)
             op = doc.operations[0]
